@@ -146,6 +146,8 @@ var concurrentScenarios = []string{
 
 // degenerate forms: each is a family the grammar accepts (or nearly) with an empty / odd part
 var degenerateForms = []string{
+	// texts cut off right behind an operator and a blank (the scanner looks ahead for `= <-`, `<-`, `...`)
+	"a = ", "a =  ", "x = 1\nif x == 1 {\n\ty = ", "a = <", "a = <-", "a = <- ", "a, b = ", "var a = ", "a += ", "a[0] = ", "a.b = ", "a = [", "a = {", "a ? ", "a ?? ", "a . ", "a .. ", "f(a.", "a <", "a < ", "a <-", "<", "=", "= ", ".", "..",
 	"var a =", "var a, b =", "a, b =", "a =", "= 1", "var = 1", "*a = 1", "*pt = 1", "*pn = 1", "*nilptr = 1", "*v = 1", "*c = 1", "*f = 1", "&1", "&a.b", "&c[9]", "*nilptr", "*a",
 	"f(...)", "g(...)", "f(a...)", "f(c...)", "f(v...)", "g(c...)", "g(v...)", "g(1, v...)", "sum(c...)", "sum(nilslice...)", "sum(v...)", "sum(1, 2, [3]...)", "id(...)", "boom(...)",
 	"go f(...)", "go boom()", "go boomv(1)", "go id(1, 2)", "go f()", "go m.h()", "go c()", "go nil()", "go v()", "go a()", "go g(c...)", "go callcb(boom)", "go callcb(func() { boom() })",
